@@ -10,9 +10,11 @@ WT=$(mktemp -d /tmp/evalben-XXXX); rmdir $WT
 git -C /repo worktree add -q --detach $WT HEAD || exit 2
 trap 'git -C /repo worktree remove --force $WT >/dev/null 2>&1' EXIT
 ( cd $WT && git apply $M/patch.diff ) || { echo "$M: patch does not apply"; exit 2; }
+if [ -n "${SKIP_SUITE:-}" ]; then s=0; else
 ( cd $WT && go build ./... && go test -vet=off -count=1 ./... >/dev/null 2>&1 ); s=$?
+fi
 res="$M suite=$s"
-for c in C01 C02 C03 C04 C05 C06 C07 C08 C09 C10 C12 C17 C19 C20; do
+for c in ${BEN_CHECKS:-C01 C02 C03 C04 C05 C06 C07 C08 C09 C10 C12 C17 C19 C20}; do
   out=$(cd $ROOT && VERIF_REPO=$WT VERIF_WORLDS=${BEN_WORLDS:-4000} ./bin/simdrive check $c quick 2>&1); rc=$?
   res="$res $c=$rc"
   if [ $rc -ne 0 ]; then echo "$out" | grep -A3 "^VIOLATION\|^INFRA" | head -8 | cut -c1-300; fi
